@@ -7,6 +7,8 @@ open Sop.Driver Sop.Driver.BlockCowIO Sop.Handle Sop.BlockCow
 structure St where
   base : Block := []
   disk : Disk := ⟨[], none⟩
+  /-- the image a writer run to completion on `(base, no backup)` puts on disk -/
+  new : Block := []
 
 def flipBit (b : Block) (bit : Nat) : Block :=
   b.set (bit / 8) ((b.getD (bit / 8) 0) ^^^ (2 ^ (bit % 8)))
@@ -34,13 +36,23 @@ def applyCowSpec (base : Block) (spec : String) : Option (Option (List Nat)) :=
   | ["raw", enc] => (decBlk enc).map some
   | _ => none
 
+/-- a writer operation run to completion on `(base, no backup)`: the image it writes -/
+def writerImage (st : St) (r : OpRes × Disk) : St × String :=
+  match r.1 with
+  | .ok => ({ st with new := r.2.blk }, encBlk r.2.blk)
+  | o => (st, showOpRes o)
+
+def crashTo (st : St) (cp : CrashPoint) : St × String :=
+  let d := crashDisk false st.base st.new cp
+  ({ st with disk := d }, showDisk d)
+
 def answer (st : St) (r : OpRes × Disk) : St × String := ({ st with disk := r.2 }, showOpRes r.1)
 
 def step (st : St) (ws : List String) : St × String :=
   match ws with
   | ["base", blk] =>
     match decBlk blk with
-    | some b => ({ base := b, disk := ⟨b, none⟩ }, "ok")
+    | some b => ({ base := b, disk := ⟨b, none⟩, new := b }, "ok")
     | none => (st, "bad-op")
   | ["st", bs, cs] =>
     match applyBlkSpec st.base bs, applyCowSpec st.base cs with
@@ -61,6 +73,28 @@ def step (st : St) (ws : List String) : St × String :=
   | ["rm", id] =>
     match bytesOfHex id with
     | some id => answer st (rmOp real st.disk id)
+    | none => (st, "bad-op")
+  | "wadd" :: hw =>
+    match parseHandle hw with
+    | some h => writerImage st (addOp real ⟨st.base, none⟩ h)
+    | none => (st, "bad-op")
+  | "wset" :: hw =>
+    match parseHandle hw with
+    | some h => writerImage st (setOp real ⟨st.base, none⟩ h)
+    | none => (st, "bad-op")
+  | ["crash", "before"] => crashTo st .before
+  | ["crash", "after"] => crashTo st .after
+  | ["crash", "cow", k] =>
+    match k.toNat? with
+    | some k => crashTo st (.cow k)
+    | none => (st, "bad-op")
+  | ["crash", "torn", l] =>
+    match l.toNat? with
+    | some l => crashTo st (.torn l)
+    | none => (st, "bad-op")
+  | ["crash", "mask", s, bits] =>
+    match s.toNat? with
+    | some s => crashTo st (.mask s (bits.toList.map (· == '1')))
     | none => (st, "bad-op")
   | ["dump"] => (st, showDisk st.disk)
   | ["valid"] => (st, b01 (valid real st.disk.blk))
